@@ -3,14 +3,15 @@ Driver command for the data-loader model (C12).
 
   loader <variant> <registry> <reader> <log> <history>
 
-  variant   six 0/1 digits: keyPost keyTypes newOnly sliceExact dequeFull sliceNonPos   (111111 = the code as it is;
-            five digits = the sixth is 0)
+  variant   seven 0/1 digits: keyPost keyTypes newOnly sliceExact dequeFull sliceNonPos keyT0   (1111111 = the code as
+            it is; digits left out at the end are 0)
   registry  t:known:hasP1:hasSys:alignP1:numpyP1,...        in the order of list(message_type_to_class.keys())
   reader    <dropsUntimed 0/1>/<keepsUnavailable 0/1>/<available ids a.b.c or ->/<s_e_abs=ord.ord...|...>   (index[time_range] per range used)
   log       ord:type:time:src,...             time = scaled integer or n; `-` = empty log
   history   call;call;...   call = types,range,sources,ignore_cache,max,require_p1,require_sys,in_order,
             return_index,return_numpy,keep_messages,remove_nan,align,aligned
-            (lists a.b.c, `*` = None, `-` = empty; max = integer or n; range = s_e_abs with n for None)
+            (lists a.b.c, `*` = None, `-` = empty; max = integer or n; range = s_e_abs or s_e_abs_t0 with n for None,
+            t0 = the explicit p1_t0 of a relative range)
 
   loaderspec <registry> <reader> <log> <call>     the specification (Spec/Loader.lean `freshSpec`) of one fresh call
 
@@ -41,13 +42,20 @@ def parseTR (s : String) : Option TimeRange :=
     let a ← optInt a
     let b ← optInt b
     let c ← bit c
-    pure ⟨a, b, c⟩
+    pure ⟨a, b, c, none⟩
+  | [a, b, c, d] => do
+    let a ← optInt a
+    let b ← optInt b
+    let c ← bit c
+    let d ← optInt d
+    pure ⟨a, b, c, d⟩
   | _ => none
 
 def parseVariant (s : String) : Option Variant :=
   match s.toList.map (fun c => bit (String.singleton c)) with
-  | [some a, some b, some c, some d, some e] => some ⟨a, b, c, d, e, false⟩
-  | [some a, some b, some c, some d, some e, some f] => some ⟨a, b, c, d, e, f⟩
+  | [some a, some b, some c, some d, some e] => some ⟨a, b, c, d, e, false, false⟩
+  | [some a, some b, some c, some d, some e, some f] => some ⟨a, b, c, d, e, f, false⟩
+  | [some a, some b, some c, some d, some e, some f, some g] => some ⟨a, b, c, d, e, f, g⟩
   | _ => none
 
 def parseReg (s : String) : Option Reg := do
